@@ -44,6 +44,8 @@ int rc_sign(const vk_t *k, jwt_alg_t alg, const void *msg, size_t n, unsigned ch
 /* integer-level verification with the pool key's public half: 1 valid, 0 not */
 extern int rc_lenient_width;
 int rc_verify(const vk_t *k, jwt_alg_t alg, const void *msg, size_t n, const unsigned char *sig, size_t siglen);
+int rc_native_count(const vk_t *k);   /* signatures the key can make by its own nature: every hash, every encoding */
+int rc_native_sign(const vk_t *k, int variant, const void *msg, size_t n, unsigned char **sig, size_t *siglen, const char **label);
 /* is (alg, key) inside the family / size rules of C02 + C09 (RSA >= 2048, EC size match, Ed25519/Ed448) */
 int rc_key_admissible(const vk_t *k, jwt_alg_t alg);
 
